@@ -1,7 +1,7 @@
 """C20 - Linear layer computes the clipped affine function (P1 P2 W4 X2 W1)."""
 import ast
 
-from ..model import (AnalysisError, dotted, norm_text, names_read, const_value,
+from ..model import (orelse_view, AnalysisError, dotted, norm_text, names_read, const_value,
                      is_none)
 from ..cfg import CFG, structural_guards
 from ..rules import roles
@@ -179,28 +179,106 @@ def _clip(prog, res, build, call):
             'clip runs whenever build() stored clip constants',
             'the clip in Linear.call is not guarded by the presence of both '
             'clip constants')
-  # build stores both constants in exactly the states with some bound
-  ok = True
+  # build stores both constants in exactly the states with some bound: the
+  # condition of the arm that stores them is, as a truth table over its four
+  # atoms,  (min and some(min)) or (max and some(max))
+  ok = None
+  oe = orelse_view(build.node)
   for st in ast.walk(build.node):
-    if isinstance(st, ast.If) and any(
-        isinstance(a, ast.Assign) and dotted(a.targets[0]) ==
-        'self.clip_value_min' for a in st.body):
-      both = {dotted(a.targets[0]) for a in st.body
-              if isinstance(a, ast.Assign)}
-      els = {dotted(a.targets[0]): a.value for a in st.orelse
-             if isinstance(a, ast.Assign)}
-      ok = ({'self.clip_value_min', 'self.clip_value_max'} <= both
-            and is_none(els.get('self.clip_value_min'))
-            and is_none(els.get('self.clip_value_max')))
-      t = st.test
-      rd = names_read(t)
-      ok = ok and 'input_min' in rd and 'input_max' in rd and isinstance(
-          t, ast.BoolOp) and isinstance(t.op, ast.Or)
+    if not isinstance(st, ast.If):
+      continue
+    arms = []
+    for arm in (st.body, oe(st)):
+      vals = {dotted(a.targets[0]): a.value for a in arm
+              if isinstance(a, ast.Assign) and len(a.targets) == 1}
+      arms.append(vals)
+    if not any('self.clip_value_min' in v for v in arms):
+      continue
+    want = {'self.clip_value_min', 'self.clip_value_max'}
+    kinds = []
+    for v in arms:
+      if not want <= set(v):
+        kinds.append('partial')
+      elif all(is_none(v[k]) for k in want):
+        kinds.append('none')
+      elif not any(is_none(v[k]) for k in want):
+        kinds.append('set')
+      else:
+        kinds.append('partial')
+    if sorted(kinds) != ['none', 'set']:
+      ok = False
+      continue
+    ok = _some_bound_condition(st.test, negated=kinds[0] == 'none')
+  if ok is None:
+    raise AnalysisError('Linear.build: the statement that stores the clip '
+                        'constants was not found')
   res.check(ok, 'W4', '%s|clip-constants' % build.qualname, build.loc(),
             'both clip constants are stored when input_min or input_max has '
             'a bound, and both are None otherwise',
             'Linear.build no longer stores both clip constants exactly when '
             'some input bound exists')
+
+
+def _some_bound_condition(test, negated):
+  """test (negated when the storing arm is the else arm) is equivalent to
+  (input_min and input_min.count(None) < len(input_min)) or the same for
+  input_max - decided as a truth table over the four atoms; an atom of
+  another kind is an analysis error"""
+  import itertools
+
+  def atom(e):
+    if isinstance(e, ast.Name) and e.id in ('input_min', 'input_max'):
+      return (e.id, 'given'), True
+    if isinstance(e, ast.Compare) and len(e.ops) == 1:
+      l, r = e.left, e.comparators[0]
+      op = type(e.ops[0])
+      # normalise to count ? len
+      if isinstance(l, ast.Call) and dotted(l.func) == 'len':
+        l, r = r, l
+        op = {ast.Lt: ast.Gt, ast.Gt: ast.Lt, ast.LtE: ast.GtE,
+              ast.GtE: ast.LtE}.get(op, op)
+      if isinstance(l, ast.Call) and isinstance(l.func, ast.Attribute) and \
+          l.func.attr == 'count' and len(l.args) == 1 and is_none(
+              l.args[0]) and isinstance(r, ast.Call) and dotted(
+                  r.func) == 'len' and len(r.args) == 1 and dotted(
+                      r.args[0]) == dotted(l.func.value) and dotted(
+                          r.args[0]) in ('input_min', 'input_max'):
+        nm = dotted(r.args[0])
+        if op in (ast.Lt, ast.NotEq):      # count <= len always holds
+          return (nm, 'some'), True
+        if op in (ast.GtE, ast.Eq):
+          return (nm, 'some'), False
+        if op is ast.LtE:                  # count(None) <= len: always
+          return 'true', True
+        if op is ast.Gt:
+          return 'true', False
+    raise AnalysisError('Linear.build: unrecognised test `%s` in the '
+                        'condition of the clip constants' % norm_text(e)[:60])
+
+  def ev(e, env):
+    if isinstance(e, ast.BoolOp):
+      vs = [ev(v, env) for v in e.values]
+      return all(vs) if isinstance(e.op, ast.And) else any(vs)
+    if isinstance(e, ast.UnaryOp) and isinstance(e.op, ast.Not):
+      return not ev(e.operand, env)
+    k, pos = atom(e)
+    return env[k] if pos else not env[k]
+  keys = [('input_min', 'given'), ('input_min', 'some'),
+          ('input_max', 'given'), ('input_max', 'some')]
+  for combo in itertools.product((False, True), repeat=4):
+    env = dict(zip(keys, combo))
+    env['true'] = True
+    # an empty / missing list has no bound: count(None) < len needs `given`
+    if (env[keys[1]] and not env[keys[0]]) or (
+        env[keys[3]] and not env[keys[2]]):
+      continue
+    got = ev(test, env)
+    if negated:
+      got = not got
+    exp = (env[keys[0]] and env[keys[1]]) or (env[keys[2]] and env[keys[3]])
+    if bool(got) != bool(exp):
+      return False
+  return True
 
 
 def _contraction(prog, res, call):
